@@ -329,12 +329,18 @@ class JsonSchemaParser:
 
             if items is False:
                 addition = False
+            elif items is True:
+                addition = True
             elif items:
                 addition = self.parse_type(items, with_constraints=True)
 
         elif items is False:
             # no item is allowed at all: only the empty array
             constraints = dict(constraints or {}, length=0)
+
+        elif items is True:
+            # every item is allowed
+            pass
 
         elif items:
             items_type = self.parse_type(items, with_constraints=True)
